@@ -6,6 +6,7 @@ import (
 	"encoding/json"
 	"encoding/xml"
 	"errors"
+	"io"
 	"io/ioutil"
 	"net/http"
 	"strings"
@@ -64,7 +65,10 @@ func (w *failingWriter) Write(b []byte) (int, error) {
 	w.accepted += n
 	if e || n < len(b) {
 		w.fails++
-		return n, errors.New("underlying writer failed")
+		// whatever the error is (net/http's own sentinels included: a body after 204 / 304, a timed-out handler),
+		// the failing call must hand it back
+		return n, []error{errors.New("underlying writer failed"), http.ErrBodyNotAllowed, io.ErrShortWrite,
+			http.ErrHandlerTimeout}[(w.fails+len(b))%4]
 	}
 	return n, nil
 }
